@@ -838,6 +838,10 @@ def drive_sparse(ck, rng, dn, thorough):
 
 # ---------------------------------------------------------------------------------------
 def run(ck):
+    if ck.shard == 0:
+        # repeat-call monitor (shared, added by the framework owner): history / reused-object / memory-layout independence
+        from .. import repeat
+        repeat.run(ck, PID, repeat.table(PID, ck.rng("repeat")))
     thorough = ck.tier == "thorough"
     for dn in ("f64", "f32"):
         drive_ls(ck, ck.rng(f"ls/{dn}"), dn, thorough)
